@@ -549,11 +549,19 @@ def res_from_model(t):
     return ["ok"] if t[0] == 0 else ["err", t[1]]
 
 
+def errcode(name):
+    """exception class -> the model's err: CRC mismatch, the post-pass's FileNotFoundError, or a decoder failure"""
+    if name == "FileNotFoundError":
+        return ERRCODE["Other"]
+    c = arch.exc_class(name)
+    return ERRCODE["Eof"] if c == "Other" else ERRCODE[c]
+
+
 def res_code(res):
     """implementation result -> model's encoding"""
     if res[0] == "ok":
         return ["ok"]
-    return ["err", ERRCODE[arch.exc_class(res[1])]]
+    return ["err", errcode(res[1])]
 
 
 # ------------------------------------------------------------------ the recorder (so that cases can run in worker processes)
@@ -613,6 +621,7 @@ def sandbox_extract(arg):
     lim = arg["limit"]
     P.get_memory_limit = lambda: lim
     out = arg.get("out")
+    fac = arch.Collect()
     try:
         if arg.get("src") == "bytesio":
             z = py7zr.SevenZipFile(io.BytesIO(open(arg["archive"], "rb").read()), "r", password=arg.get("password"))
@@ -621,15 +630,14 @@ def sandbox_extract(arg):
         try:
             if out is not None:
                 z.extractall(path=out)
-                res, outs = ["ok"], None
             else:
-                fac = arch.Collect()
                 z.extractall(factory=fac)
-                res, outs = ["ok"], {n: b.hex() for n, b in fac.as_dict().items()}
+            res = ["ok"]
         finally:
             z.close()
     except Exception as e:  # noqa
-        res, outs = exc_tuple(e), None
+        res = exc_tuple(e)
+    outs = {n: b.hex() for n, b in fac.as_dict().items()}
     if out is not None:
         outs = hexouts(snapshot(out))
     return {"result": res, "outs": outs}
@@ -708,7 +716,7 @@ def explore_case(case, model, rng, rec, budget, mp_runs, two_runs, workdir):
         refops = dict(pref["ops"])
         if dmg:
             rec.dist("damage_effect", ref["result"][1])
-            failcodes[dfolder] = ERRCODE[arch.exc_class(ref["result"][1])]
+            failcodes[dfolder] = errcode(ref["result"][1])
             refops[dfolder] = ref["ops"][dfolder]
         ws = model_workers(case, lay, refops, failcodes, pref["ops"], oid)
         pre_w = [[0, oid[outn[i]]] for i in range(len(names)) if lay["empties"][i]]
@@ -857,13 +865,9 @@ def explore_mp(case, path, lay, target, ref, pref, ws, pre_w, onames, outn, mode
         for md in (2, 3):
             m = model.call("par_extract", [md, mt, sched, pre_w, ws, len(onames)])
             mm[md] = (outs_from_model(m[0], onames), res_from_model(m[1]))
-        if obs == mm[3]:
+        prop_ok = (res[:2] == ref["result"][:2]) if dmg else (res == ["ok"] and outs == ref["outs"])
+        if prop_ok and obs == mm[3]:
             rec.dist("mp_behaviour", "as threads" if mm[2] != mm[3] else "as threads (= as the defective model here)")
-            ok_prop = (res[:2] == ref["result"][:2]) if dmg else (res == ["ok"] and outs == ref["outs"])
-            if not ok_prop:
-                rec.violation("mp=True: result %r outputs %r; threads/sequential: %r" % (res, hexouts(outs), ref["result"]), rp,
-                              match_keys={"kind": "schedule-dependent-output", "target": target, "path": "processes"})
-                return
             continue
         agrees = obs == mm[2]
         rec.dist("mp_behaviour", "errors/products lost" if agrees else "neither model")
@@ -1140,7 +1144,7 @@ def plan(rng, tier):
         jobs.append((c, 1000 if quick else 20000, 1 if i == 0 else 0, 4 if i == 0 else 0))
     chains_q = ["copy", "lzma2"]
     chains_t = ["copy", "lzma2", "bzip2", "deflate", "zstd"]
-    shapes = [(2, 3), (3, 2), (3, 3), (4, 1), (4, 3), (2, 2), (3, 3), (4, 2)] if quick else [(nf, mm) for nf in (2, 3, 4) for mm in (1, 2, 3)] * 6
+    shapes = [(2, 3), (3, 2), (3, 3), (4, 1), (4, 3), (2, 2), (3, 3), (4, 2)] if quick else [(nf, mm) for nf in (2, 3, 4) for mm in (1, 2, 3)] * 16
     for i, (nf, maxm) in enumerate(shapes):
         c = gen_case(rng, nf, maxm, [1, 7, 8, 9, 17, 24, 40] if quick else [1, 7, 8, 9, 17, 24, 40, 100, 300],
                      chains_q if quick else chains_t, rng.choice([8, 16, 64]), first_empty=(i % 3 == 2))
